@@ -29,7 +29,9 @@ PROPERTY = "C19"
 LEVEL = "exploration"
 RULE = ("one run = 1..4 generated Intel-HEX images (1..8 data areas across 64 KiB zones, gaps, areas "
         "written out of address order, record lengths 1..255, LF / CRLF) hashed by `signapp hash` in two "
-        "different writings each, then signed by `signonetime` twice under two different entropy streams "
+        "different writings each, embedded by `signapp message` for successive releases (same output path, "
+        "fresh paths, console), then signed by `signonetime` (distinct file names or build<i>/app.hex) "
+        "twice under two different entropy streams "
         "(and once more under the first stream); non-trivial = at least one signature file was written; "
         "distinct = (#images, #areas, multi-zone, out-of-order, record-length set, eol)")
 TIERS = {"quick": {"runs": 5000, "wall": 240}, "thorough": {"runs": 100000, "wall": 3000}}
